@@ -33,6 +33,19 @@ def gen_lines(rng, thorough):
                         ws.append((o, rng.randrange(256)))
                 if ws:
                     lines.append('c %s %d %d %d %s' % (a, size, al, len(ws), ' '.join('%d %d' % w for w in ws)))
+            # the same stray value in several machine words of one fence (a memset over the fence, equal bytes 8 apart):
+            # a word-wise comparison that folds words together must not let them cancel
+            for side in (-fence, size):
+                for v in ([0, 0xFF, 0xCD] if not thorough else [0, 1, 0xFF, 0xCD, 0xFC, 0x02]):
+                    ws = [(side + j, v) for j in range(16)]
+                    lines.append('c %s %d %d %d %s' % (a, size, al, len(ws), ' '.join('%d %d' % w for w in ws)))
+                for _ in range(6 if not thorough else 20):
+                    o = side + rng.randrange(0, fence - 8); v = rng.randrange(256)
+                    d = 8 * rng.randint(1, max(1, (side + fence - 1 - o) // 8))
+                    ws = [(o, v), (o + d, v)]
+                    lines.append('c %s %d %d %d %s' % (a, size, al, len(ws), ' '.join('%d %d' % w for w in ws)))
+            ws = [(-fence + j, 0) for j in range(16)] + [(size + j, 0) for j in range(16)]
+            lines.append('c %s %d %d %d %s' % (a, size, al, len(ws), ' '.join('%d %d' % w for w in ws)))
             # in-bounds writes only: never reported
             for _ in range(6):
                 ws = [(rng.randrange(size), rng.randrange(256)) for _ in range(rng.randint(1, 6))]
@@ -129,5 +142,5 @@ def run(ctx):
                  configs=cfgs, experiments_per_config=per, experiments=total, reported=reported, not_reported=clean, divergences=div,
                  allocators=['heap_allocator', 'malloc_allocator', 'new_allocator', 'virtual_memory_allocator'], pattern_checks_on_other_allocators=fills),
         evaluations=total, distinct_nontrivial=len(set(lines)),
-        rule='every byte offset of both 16-byte fences (sampled for the page-sized fences of the virtual allocator) x byte values (all 256 for small nodes in thorough), multi-byte corruptions inside one word and across both fences, in-bounds write sets, the fence value itself; node sizes 1..5000; distinct = distinct experiment lines'))
+        rule='every byte offset of both 16-byte fences (sampled for the page-sized fences of the virtual allocator) x byte values (all 256 for small nodes in thorough), multi-byte corruptions inside one word and across both fences, equal stray values in several words of one fence (whole-fence memset, equal bytes 8k apart), in-bounds write sets, the fence value itself; node sizes 1..5000; distinct = distinct experiment lines'))
     ctx.samples += lines[3:5] + [l for l in lines if l.count(' ') > 8][:2]
